@@ -107,6 +107,12 @@ class Tmatrix(ScatteringTheory):
             raise TheoryNotCompatibleError(self, scatterer)
 
         axi = (3/2)**iscyl*(rz*rxy**2)**(1/3.)
+        # the compiled code handles size parameters up to about 180; far
+        # beyond that its integer arithmetic overflows and the process
+        # crashes, so refuse such particles here
+        if not 2*np.pi*axi/med_wavelen < 1e4:
+            raise InvalidScatterer(scatterer, "size parameter too large "
+                                   "for the T-matrix code")
         rat = 1
         lam = med_wavelen
         mrr = scatterer.n.real/medium_index
